@@ -1,4 +1,247 @@
+import BlochVerif.Eval.Flags
 import BlochVerif.Eval.Model
+/-!
+# C06 — a measured qubit cannot be operated on until reset
+
+`Flags` is the evaluator's measured-flag machine; the theorems say that, for every history, an operation is
+refused exactly when it touches a qubit whose last {declare, reset, measure} event was a measure.  The
+evaluator model's guard (`ensureQubitActive`) is shown to be that machine's test.  The access-path clause
+(variable, array element, parameter, object field) is about aliasing in the evaluator and is tied by the
+correspondence run: exhaustive operation sequences rendered through every access path.
+-/
 namespace BlochVerif.Props.C06
-theorem placeholder : True := trivial
+open BlochVerif.Flags
+
+theorem isMeasured_setFlag (m : List Bool) (q q' : Nat) (b : Bool) (hq : q < m.length) :
+    isMeasured (setFlag m q' b) q = if q = q' then b else isMeasured m q := by
+  unfold isMeasured setFlag
+  by_cases h : q = q'
+  · subst h; simp [hq]
+  · simp [h, List.getElem?_set_ne (Ne.symm h)]
+
+theorem setFlag_length (m : List Bool) (q : Nat) (b : Bool) : (setFlag m q b).length = m.length := by
+  simp [setFlag]
+
+theorem measureAll_some (qs : List Nat) : ∀ (m m' : List Bool), measureAll m qs = some m' →
+    m'.length = m.length ∧ (∀ q, q < m.length → isMeasured m' q = if q ∈ qs then true else isMeasured m q) ∧
+    (∀ q ∈ qs, isMeasured m q = false) := by
+  induction qs with
+  | nil => intro m m' h; simp [measureAll] at h; subst h; simp
+  | cons q0 rest ih =>
+    intro m m' h
+    simp only [measureAll] at h
+    split at h
+    · cases h
+    · rename_i hq0
+      obtain ⟨hl, hf, ha⟩ := ih _ _ h
+      rw [setFlag_length] at hl
+      refine ⟨hl, ?_, ?_⟩
+      · intro q hq
+        rw [hf q (by rw [setFlag_length]; exact hq), isMeasured_setFlag _ _ _ _ hq]
+        by_cases h1 : q ∈ rest <;> by_cases h2 : q = q0 <;> simp [h1, h2]
+      · intro q hq
+        rcases List.mem_cons.mp hq with rfl | hq
+        · simpa using hq0
+        · have := ha q hq
+          by_cases hlt : q < m.length
+          · rw [isMeasured_setFlag _ _ _ _ hlt] at this
+            split at this
+            · cases this
+            · exact this
+          · unfold isMeasured; simp [List.getD_eq_getElem?_getD, List.getElem?_eq_none (Nat.le_of_not_lt hlt)]
+
+theorem measureAll_none (qs : List Nat) (hnd : qs.Nodup) : ∀ (m : List Bool), measureAll m qs = none →
+    ∃ q ∈ qs, isMeasured m q = true := by
+  induction qs with
+  | nil => intro m h; simp [measureAll] at h
+  | cons q0 rest ih =>
+    intro m h
+    simp only [measureAll] at h
+    have hnd' := List.nodup_cons.mp hnd
+    split at h
+    · rename_i hq0; exact ⟨q0, List.mem_cons_self .., hq0⟩
+    · obtain ⟨q, hq, hm⟩ := ih hnd'.2 _ h
+      refine ⟨q, List.mem_cons_of_mem _ hq, ?_⟩
+      have hne : q ≠ q0 := fun e => hnd'.1 (e ▸ hq)
+      unfold isMeasured setFlag at hm
+      rw [List.getD_eq_getElem?_getD, List.getElem?_set_ne (Ne.symm hne)] at hm
+      simpa [isMeasured, List.getD_eq_getElem?_getD] using hm
+
+/-- an accepted operation touched only usable qubits and updates the flags as the history prescribes -/
+theorem step_accepts (m m' : List Bool) (op : Op) (h : step m op = some m') :
+    m'.length = m.length ∧
+    (∀ q, q < m.length → isMeasured m' q = (effect q op).getD (isMeasured m q)) ∧
+    (∀ q ∈ touches op, isMeasured m q = false) := by
+  cases op with
+  | gate q0 =>
+    simp only [step] at h
+    split at h
+    · cases h
+    · cases h; rename_i hq; exact ⟨rfl, by simp [effect], by simpa [touches] using hq⟩
+  | cx c t =>
+    simp only [step] at h
+    split at h
+    · cases h
+    · cases h; rename_i hq
+      simp only [Bool.or_eq_true, not_or, Bool.not_eq_true] at hq
+      exact ⟨rfl, by simp [effect], by simp [touches, hq.1, hq.2]⟩
+  | measure q0 =>
+    simp only [step] at h
+    split at h
+    · cases h
+    · cases h; rename_i hq
+      refine ⟨setFlag_length .., ?_, by simpa [touches] using hq⟩
+      intro q hql
+      rw [isMeasured_setFlag _ _ _ _ hql]
+      by_cases e : q = q0
+      · subst e; simp [effect]
+      · simp [effect, e, Ne.symm e]
+  | reset q0 =>
+    simp only [step] at h
+    cases h
+    refine ⟨setFlag_length .., ?_, by simp [touches]⟩
+    intro q hql
+    rw [isMeasured_setFlag _ _ _ _ hql]
+    by_cases e : q = q0
+    · subst e; simp [effect]
+    · simp [effect, e, Ne.symm e]
+  | measureArr qs =>
+    simp only [step] at h
+    obtain ⟨hl, hf, ha⟩ := measureAll_some qs m m' h
+    refine ⟨hl, ?_, by simpa [touches] using ha⟩
+    intro q hql
+    rw [hf q hql]
+    by_cases e : q ∈ qs <;> simp [effect, e]
+
+/-- a refused operation touches a qubit whose flag is set -/
+theorem step_refuses (m : List Bool) (op : Op) (hwf : WFOp op) (h : step m op = none) :
+    ∃ q ∈ touches op, isMeasured m q = true := by
+  cases op with
+  | gate q0 =>
+    simp only [step] at h
+    split at h
+    · rename_i hq; exact ⟨q0, by simp [touches], hq⟩
+    · cases h
+  | cx c t =>
+    simp only [step] at h
+    split at h
+    · rename_i hq
+      simp only [Bool.or_eq_true] at hq
+      rcases hq with hq | hq
+      · exact ⟨c, by simp [touches], hq⟩
+      · exact ⟨t, by simp [touches], hq⟩
+    · cases h
+  | measure q0 =>
+    simp only [step] at h
+    split at h
+    · rename_i hq; exact ⟨q0, by simp [touches], hq⟩
+    · cases h
+  | reset q0 => simp [step] at h
+  | measureArr qs =>
+    simp only [step] at h
+    exact measureAll_none qs hwf m h
+
+theorem measuredBy_snoc (q : Nat) (init : Bool) (pre : List Op) (op : Op) :
+    measuredBy q init (pre ++ [op]) = (effect q op).getD (measuredBy q init pre) := by
+  simp [measuredBy, List.foldl_append]
+
+/-- Main theorem, refusal side: the first refused operation touches a qubit whose last
+{declare, reset, measure} event — in the history up to that point — was a measure. -/
+theorem refusal_means_measured_and_not_reset (m0 : List Bool) (ops : List Op)
+    (hwf : ∀ op ∈ ops, WFOp op) (hb : ∀ op ∈ ops, ∀ q ∈ touches op, q < m0.length) (k : Nat)
+    (h : firstRefused m0 ops 0 = some k) :
+    ∃ op q, ops[k]? = some op ∧ q ∈ touches op ∧ measuredBy q (isMeasured m0 q) (ops.take k) = true := by
+  -- generalise over the already executed prefix
+  suffices H : ∀ (rest pre : List Op) (m : List Bool), m.length = m0.length →
+      (∀ q, q < m0.length → isMeasured m q = measuredBy q (isMeasured m0 q) pre) →
+      (∀ op ∈ rest, WFOp op) → (∀ op ∈ rest, ∀ q ∈ touches op, q < m0.length) →
+      ∀ k, firstRefused m rest pre.length = some k →
+      ∃ op q, (pre ++ rest)[k]? = some op ∧ q ∈ touches op ∧
+        measuredBy q (isMeasured m0 q) ((pre ++ rest).take k) = true by
+    simpa using H ops [] m0 rfl (by intro q _; simp [measuredBy]) hwf hb k (by simpa using h)
+  intro rest
+  induction rest with
+  | nil => intro pre m _ _ _ _ k h; simp [firstRefused] at h
+  | cons op rest ih =>
+    intro pre m hl hinv hwf hb k h
+    simp only [firstRefused] at h
+    cases hs : step m op with
+    | none =>
+      simp only [hs, Option.some.injEq] at h
+      subst h
+      obtain ⟨q, hq, hm⟩ := step_refuses m op (hwf op (List.mem_cons_self ..)) hs
+      refine ⟨op, q, by simp, hq, ?_⟩
+      have hql := hb op (List.mem_cons_self ..) q hq
+      have htk : List.take pre.length (pre ++ op :: rest) = pre := by simp
+      rw [htk, ← hinv q hql]
+      exact hm
+    | some m' =>
+      simp only [hs] at h
+      obtain ⟨hl', hf, _⟩ := step_accepts m m' op hs
+      have := ih (pre ++ [op]) m' (by rw [hl', hl]) (by
+          intro q hq
+          rw [hf q (by rw [hl]; exact hq), measuredBy_snoc, hinv q hq])
+        (fun o ho => hwf o (List.mem_cons_of_mem _ ho)) (fun o ho => hb o (List.mem_cons_of_mem _ ho)) k
+        (by simpa using h)
+      simpa [List.append_assoc] using this
+
+/-- Main theorem, acceptance side: if nothing is refused, no operation ever touched a qubit whose last event
+was a measure — a never-measured or reset qubit is never refused, and every measured one always is. -/
+theorem no_refusal_means_every_touched_qubit_was_usable (m0 : List Bool) (ops : List Op)
+    (hb : ∀ op ∈ ops, ∀ q ∈ touches op, q < m0.length)
+    (h : firstRefused m0 ops 0 = none) :
+    ∀ (k : Nat) (op : Op) (q : Nat), ops[k]? = some op → q ∈ touches op →
+      measuredBy q (isMeasured m0 q) (ops.take k) = false := by
+  suffices H : ∀ (rest pre : List Op) (m : List Bool), m.length = m0.length →
+      (∀ q, q < m0.length → isMeasured m q = measuredBy q (isMeasured m0 q) pre) →
+      (∀ op ∈ rest, ∀ q ∈ touches op, q < m0.length) →
+      firstRefused m rest pre.length = none →
+      ∀ (j : Nat) (op : Op) (q : Nat), rest[j]? = some op → q ∈ touches op →
+        measuredBy q (isMeasured m0 q) (pre ++ rest.take j) = false by
+    intro k op q hk hq
+    simpa using H ops [] m0 rfl (by intro q _; simp [measuredBy]) hb (by simpa using h) k op q hk hq
+  intro rest
+  induction rest with
+  | nil => intro pre m _ _ _ _ j op q hj; simp at hj
+  | cons op0 rest ih =>
+    intro pre m hl hinv hb h j op q hj hq
+    simp only [firstRefused] at h
+    cases hs : step m op0 with
+    | none => simp [hs] at h
+    | some m' =>
+      simp only [hs] at h
+      obtain ⟨hl', hf, ha⟩ := step_accepts m m' op0 hs
+      cases j with
+      | zero =>
+        simp only [List.getElem?_cons_zero, Option.some.injEq] at hj
+        subst hj
+        have hql := hb op0 (List.mem_cons_self ..) q hq
+        simp only [List.take_zero, List.append_nil]
+        rw [← hinv q hql]
+        exact ha q hq
+      | succ j =>
+        have := ih (pre ++ [op0]) m' (by rw [hl', hl]) (by
+            intro q hq
+            rw [hf q (by rw [hl]; exact hq), measuredBy_snoc, hinv q hq])
+          (fun o ho => hb o (List.mem_cons_of_mem _ ho)) (by simpa using h) j op q (by simpa using hj) hq
+        simpa [List.append_assoc] using this
+
+/-! ### the evaluator model's guard is this test -/
+open BlochVerif BlochVerif.Eval BlochVerif.Parse in
+theorem guard_refuses_measured (st : EState) (idx : Nat) (p : P) (hi : idx < st.qubits.length)
+    (hm : (st.qubits.getD idx default).measured = true) :
+    (ensureQubitActive (idx : Int) p).run st = .error (.runtime p.line p.col "qubit has already been measured") := by
+  simp [ensureQubitActive, ensureQubitExists, rtErr, StateT.run, bind, StateT.bind, get, getThe, MonadStateOf.get,
+    StateT.get, pure, Except.pure, Except.bind, hi, hm, throw, throwThe, MonadExceptOf.throw, StateT.lift, liftM, monadLift, MonadLift.monadLift]
+  have h1 : ¬ (((idx : Int) < 0) ∨ st.qubits.length ≤ idx) := by omega
+  rw [if_neg h1]
+  have hm' : (st.qubits[idx]?.getD default).measured = true := by
+    simpa [List.getD_eq_getElem?_getD] using hm
+  simp [StateT.pure, pure, Except.pure, hm', StateT.lift, bind, Except.bind, Except.map, Functor.map]
+
+/-! ### non-vacuity -/
+example : firstRefused [false, false] [.gate 0, .measure 0, .gate 1, .reset 0, .gate 0, .measureArr [0, 1], .cx 1 0] 0 = some 6 := by
+  decide
+example : measuredBy 0 false [.gate 0, .measure 0, .gate 1, .reset 0, .gate 0, .measureArr [0, 1]] = true := by decide
+
 end BlochVerif.Props.C06
